@@ -272,6 +272,8 @@ def run(ck, ctx):
             for fi, site, loc, ret, pc in log_of(qual)[:1]:
                 atoms = {}
                 for role, src in roles.items():
+                    if src.startswith("local:"):
+                        src = src[6:]
                     if src.startswith("self."):
                         atoms[role] = I.res(I.load_attr(K.obj, src[5:], K.st, None, None), K.st)
                     elif "[" in src:
@@ -279,7 +281,10 @@ def run(ck, ctx):
                         atoms[role] = I.mk("Subscript", (I.res(loc[base], K.st), I.res(loc[idx], K.st)))
                     else:
                         atoms[role] = loc[src]
-                val = ret if which == "return" else I.elem(ret, int(which[7:-1]))
+                if which.startswith("local:"):
+                    val = loc[which[6:]]
+                else:
+                    val = ret if which == "return" else I.elem(ret, int(which[7:-1]))
                 val = I.res(val, K.st)          # arrays updated in place: their final version
                 P = facet(atoms)
                 # the roles are matched by value (a parameter, its current version and a re-gathered copy are one)
@@ -289,7 +294,7 @@ def run(ck, ctx):
                 env["pi"] = P.of(I.res(I.load_attr(K.obj, "pi", K.st, None, None), K.st))
                 try:
                     want = _ref_with_pi(P, ref, env)
-                    ok = P.equal(P.of(val), want)
+                    ok = P.equal(_bare(P.of(val)), want)
                     detail = P.show(P.of(val))[:200]
                 except Exception as ex:           # noqa: BLE001 - a formula that cannot be normalised is undecided
                     ok, detail = None, f"{type(ex).__name__}: {ex}"
@@ -484,7 +489,7 @@ def run(ck, ctx):
 
 MODEL_METHODS = ("CphotAng.valid_arrays", "CphotAng.tracklen", "CphotAng.e0", "CphotAng.cherenkov_threshold_angle",
                  "CphotAng.sphoton_yeild", "CphotAng.d_to_det", "CphotAng.cherenkov_area", "CphotAng.theta_view",
-                 "CphotAng.theta_prop")
+                 "CphotAng.theta_prop", "CphotAng.photon_sum", "CphotAng.aerosol_model")
 
 # Reference formulas of the shower model named by the property (sources: K. Greisen, Prog. Cosmic Ray Phys. 3
 # (1956) - longitudinal profile N(t) = 0.31 / sqrt(y) exp[t (1 - 1.5 ln s)], s = 3 t / (t + 2 y), y = ln(E / Ec),
@@ -503,6 +508,20 @@ MODEL_FORMULAS = [
      {"v": "ThetView", "p": "ThetPrpA", "z": "zs", "R": "self.RadE"}, "distance from the step to the detector"),
     ("CphotAng.cherenkov_area", "return", "pi * (tan(a) * 1000 * D)**2", {"a": "AveCangI", "D": "DistStep[izRNmax]"},
      "area of the Cherenkov ring at shower maximum (m^2)"),
+    ("CphotAng.theta_view", "return", "arcsin(R / (R + zm) * cos(b))", {"b": "ThetProp", "R": "self.RadE", "zm": "self.zmax"},
+     "viewing angle of the track from the detector orbit"),
+    ("CphotAng.theta_prop", "return", "arccos(sv * (R + zm) / (R + z))",
+     {"sv": "sinThetView", "z": "z", "R": "self.RadE", "zm": "self.zmax"}, "propagation angle at altitude z"),
+    ("CphotAng.sphoton_yeild", "return",
+     "sin(c)**2 * Y * exp(-X / 2974 * (400 / w)**4) * exp(Z * k) * A * N",
+     {"c": "thetaC", "N": "RN", "X": "delgram", "Z": "ZonZ", "Y": "self.PYieldCoeff", "w": "self.wmean",
+      "k": "self.Okappa", "A": "local:aTrans"},
+     "photon yield per step and wavelength: sin^2(theta_c) x yield coefficient x Rayleigh x ozone x aerosol x N"),
+    ("CphotAng.photon_sum", "local:vhill", "eh / e2", {"eh": "local:ehillave", "e2": "e2hill"}, "Hillas v = <E> / E2"),
+    ("CphotAng.photon_sum", "local:wave", "0.0054 * eh * (1 + v) / (1 + 13*v + 8.3*v**2)",
+     {"eh": "local:ehillave", "v": "local:vhill"}, "Hillas mean scattering scale w(E)"),
+    ("CphotAng.photon_sum", "local:poweha", "(eh / 21)**2", {"eh": "local:ehillave"}, "Hillas (E / 21 MeV)^2"),
+    ("CphotAng.photon_sum", "local:xhill", "sqrt(u) - 0.59", {"u": "local:uhill"}, "Hillas x = sqrt(u) - z0, z0 = 0.59"),
 ]
 
 
